@@ -1013,14 +1013,17 @@ def r3(ctx):
                     fld = backslice(cb, [c.args[0]]).field_names() & {'included_names', 'included_paths', 'excluded_paths'}
                     if fld:
                         atoms['%s.%s' % (sorted(fld)[0], last)] = c.bb
-            need = {'included_names.is_empty', 'included_names.any', 'included_paths.is_empty', 'included_paths.any', 'excluded_paths.all'}
+            # "no exclude pattern matches" is `excluded.all(|p| !m(p))` or, by De Morgan, `!excluded.any(|p| m(p))`
+            ex_any = 'excluded_paths.any' in atoms and 'excluded_paths.all' not in atoms
+            ex_atom = 'excluded_paths.any' if ex_any else 'excluded_paths.all'
+            need = {'included_names.is_empty', 'included_names.any', 'included_paths.is_empty', 'included_paths.any', ex_atom}
             if set(atoms) != need:
                 ctx.violation(rule, mf.path + '|formula', cb.where(), 'unexpected atoms %s' % sorted(atoms))
             else:
                 tt = truth_table(cb, atoms)
-                ok, why = table_equals(tt, lambda a: (a['included_names.is_empty'] or a['included_names.any']) and (a['included_paths.is_empty'] or a['included_paths.any']) and a['excluded_paths.all'])
+                ok, why = table_equals(tt, lambda a: (a['included_names.is_empty'] or a['included_names.any']) and (a['included_paths.is_empty'] or a['included_paths.any']) and ((not a[ex_atom]) if ex_any else a[ex_atom]))
                 ctx.check(ok, rule, mf.path + '|formula', cb.where(), '(names empty | any name) & (paths empty | any path) & all excludes fail  [%s]' % why, 'selection formula differs: %s' % why)
-            leaf_checks(ctx, rule, lib, cb, {'included_names': ('matches', 0), 'included_paths': ('matches', 0), 'excluded_paths': ('matches', 1)})
+            leaf_checks(ctx, rule, lib, cb, {'included_names': ('matches', 0), 'included_paths': ('matches', 0), 'excluded_paths': ('matches', 0 if ex_any else 1)})
     if md is not None:
         inner = [lib.body(p) for p in lib.closures_of(md.path, recursive=False)]
         inner = [x for x in inner if x.calls(r'::any$|::all$')]
@@ -1035,14 +1038,16 @@ def r3(ctx):
                         atoms['%s.%s' % (sorted(fld)[0], last)] = c.bb
             names_used = any(k.startswith('included_names') for k in atoms)
             ctx.check(not names_used, rule, md.path + '|names-not-consulted', cb.where(), 'name patterns are not consulted for directories', 'directories are pruned by --name patterns: matching files below are lost')
-            need = {'included_paths.is_empty', 'included_paths.any', 'excluded_paths.all'}
+            ex_any = 'excluded_paths.any' in atoms and 'excluded_paths.all' not in atoms
+            ex_atom = 'excluded_paths.any' if ex_any else 'excluded_paths.all'
+            need = {'included_paths.is_empty', 'included_paths.any', ex_atom}
             if set(atoms) - {k for k in atoms if k.startswith('included_names')} != need:
                 ctx.violation(rule, md.path + '|formula', cb.where(), 'unexpected atoms %s' % sorted(atoms))
             else:
                 tt = truth_table(cb, {k: v for k, v in atoms.items() if k in need})
-                ok, why = table_equals(tt, lambda a: (a['included_paths.is_empty'] or a['included_paths.any']) and a['excluded_paths.all'])
+                ok, why = table_equals(tt, lambda a: (a['included_paths.is_empty'] or a['included_paths.any']) and ((not a[ex_atom]) if ex_any else a[ex_atom]))
                 ctx.check(ok, rule, md.path + '|formula', cb.where(), '(paths empty | any partial match) & no exclude prefix-matches  [%s]' % why, 'directory admission formula differs: %s' % why)
-            leaf_checks(ctx, rule, lib, cb, {'included_paths': ('matches_partially', 0), 'excluded_paths': ('matches_subtree', 1)})
+            leaf_checks(ctx, rule, lib, cb, {'included_paths': ('matches_partially', 0), 'excluded_paths': ('matches_subtree', 0 if ex_any else 1)})
 
 
 def leaf_checks(ctx, rule, lib, cb, expect):
